@@ -12,7 +12,7 @@ ASSUMPTIONS = [
     'uses the real ones and both are differential-tested on every run',
 ]
 
-ASSERTS = {'C01': {1, 2}, 'C02': {1, 2}, 'C03': {20}, 'C04': {10, 11, 12, 13, 14, 15, 30, 31, 32, 33}, 'C06': {1, 2, 20},
+ASSERTS = {'C01': {1, 2, 14, 15}, 'C09': {14, 15}, 'C02': {1, 2}, 'C03': {20}, 'C04': {10, 11, 12, 13, 14, 15, 30, 31, 32, 33}, 'C06': {1, 2, 20},
            'C07': {1, 2, 20, 47, 14}, 'C08': {1, 2, 10, 11, 12, 13, 20, 30, 31, 32, 33}, 'C10': {1, 2, 14, 15, 20},
            'C15': {40, 41, 42, 45, 46}, 'C17': {50, 51, 52, 53, 54}}
 
@@ -292,15 +292,27 @@ def deferred_queries(pid, tier):
 
 def kernel_queries(pid, tier):
     """best / is_more_specific / is_base on a symbolic inheritance relation: all lattices on NC classes at once."""
-    cfgs = [(3, 2, 2), (4, 2, 2)] if tier == 'quick' else [(3, 3, 2), (4, 2, 2), (4, 3, 1), (4, 3, 2), (4, 2, 3), (5, 3, 2), (4, 4, 2)]
+    cfgs = [(3, 2, 2), (4, 2, 2)] if tier == 'quick' else [(3, 3, 2), (4, 2, 2), (4, 3, 1), (4, 2, 3), (4, 3, 2)]
     qs = []
     for nc, nd, ar in cfgs:
         qs.append(Query('kernel_best_nc%d_nd%d_ar%d' % (nc, nd, ar), 'kernel_best.cpp', {'NC': nc, 'ND': nd, 'AR': ar}, unwind=12, models=True,
-                        checks='none', covers=(999, 901, 902), timeout=1800 if tier == 'thorough' else 900,
+                        checks='none', covers=(999, 901, 902), timeout=5400 if tier == 'thorough' else 1800,
                         desc='compiler::best / is_more_specific / is_base for EVERY inheritance relation on %d classes, every %d definitions of arity %d, '
                              'every presentation order' % (nc, nd, ar),
                         symbolic='the whole inheritance relation (reflexive, transitive, antisymmetric), the parameter classes of every definition, '
                                  'the order of the candidates',
                         bounds={'classes': nc, 'definitions': nd, 'arity': ar, 'unwind': 12},
                         only_asserts={1, 3, 4, 5} if pid in ('C01', 'C02', 'C06') else {2, 3, 4, 5}))
+    return qs
+
+
+def c09_publish_queries(tier):
+    """publishing side of C09 for the map / indirect placements: after an update from any earlier state, every class id leads to the
+    class's current v-table (what virtual_ptr construction from a base reference and plain references look up)"""
+    qs = []
+    for pol, nm in ((3, 'vptr_map'), (2, 'vector_indirect')):
+        for i, r in enumerate([probe_diamond()] if tier == 'quick' else [probe_diamond(), probe_next(), probe_c04()]):
+            qs.append(_q('C09', r, 'publish_%s_%s' % (nm, tag(r, i)), {'PRIOR_GARBAGE': 24, 'TWO_UPDATES': 1, 'POL': pol},
+                         desc='v-table pointers published by update (%s) from an arbitrary earlier state' % nm,
+                         symbolic='state left by earlier updates incl. which classes the persistent table already knows'))
     return qs
